@@ -367,14 +367,14 @@ pub fn run(run: &mut Run) {
     run.rule = "MacKay-Neal: rows 2..12, cols 2..30, wc 1..4, wr from tight to generous, backtracking 0..4 x 0..5, min girth None or 4..12 (odd values included), girth trials 0..50, both policies, random seeds; on Ok: size, every column weight = wc (from the row view AND the column view), row weights <= wr, own-oracle girth >= min_girth, uniform/no-girth => row weights differ by <= 1; run(seed) twice equal; 64 seeds of a large-choice configuration give >= 2 distinct matrices. PEG: rows 1..12, cols 1..30, wc 1..5: column weight = min(wc, rows) and REPLAY of every edge in insertion order against an own BFS on the graph at that time (unreachable, else maximal distance; least degree among those). Search: result compared with a sequential re-run of the whole seed range (tries <= 48) inside rayon pools of 1/2/4/16 threads, repeated; non-trivial = MN result changed by the girth constraint or succeeding only thanks to backtracking / PEG with wc >= 2 / search range with >= 2 successful seeds".into();
     run.assumptions = vec!["PEG insertion order within a column is read from the column iterator (push order)".into()];
     let miri = cfg!(miri);
-    let n_mn = if miri { 6 } else { run.tier.n(20_000, 1_000_000) };
+    let n_mn = if miri { 6 } else { run.tier.n(500_000, 15_000_000) };
     run.sub("mackay-neal", n_mn, |l, _i, rng| mn_case(l, rng));
-    let n_div = if miri { 1 } else { run.tier.n(40, 1000) };
+    let n_div = if miri { 1 } else { run.tier.n(400, 10_000) };
     run.sub("mackay-neal-seed-diversity", n_div, |l, _i, rng| mn_seed_diversity(l, rng));
-    let n_peg = if miri { 4 } else { run.tier.n(6000, 300_000) };
+    let n_peg = if miri { 4 } else { run.tier.n(100_000, 3_000_000) };
     run.sub("peg-replay", n_peg, |l, _i, rng| peg_case(l, rng));
     // the search uses its own thread pools: run these cases sequentially
-    let n_s = if miri { 1 } else { run.tier.n(24, 400) };
+    let n_s = if miri { 1 } else { run.tier.n(60, 1200) };
     let reps = if miri { 1 } else { run.tier.n(10, 20) as usize };
     run.sub_seq("seed-search", n_s, move |l, idx, rng| {
         let threads = if cfg!(miri) { 2 } else { [1usize, 2, 4, 16][(idx % 4) as usize] };
